@@ -30,6 +30,7 @@ def run(chk):
     graph(chk)
     fp_boundary(chk)
     native_probe(chk)
+    convert_probe(chk)
 
 
 def kernel_contract(chk, mod, kname):
@@ -138,8 +139,66 @@ def native_probe(chk):
                       f'{len(combos)} dtype assignments x 2 kernels', n, fails[:3])
 
 
+def convert_failures():
+    """[B] the same through the public entry point: scn.convert(data, 'tof', 'energy_transfer', scatter=True) with the fixed energy given
+    in meV, eV, ueV or J, float64 / float32, scalar or per-pixel: the coordinate that comes back is the kernel's result for the supplied
+    operands -- value, dtype and the unit of the supplied energy -- and the energy coordinate on the result is the one supplied."""
+    import warnings
+    import numpy as np
+    import scipp as sc
+    from vf.realrun import real_module
+    conv = real_module('core.conversions')
+    tof = real_module('conversion.tof')
+    bl = real_module('conversion.beamline')
+    fails = []
+    pos = np.array([[0.3, 0.5, 3.0], [-0.2, 0.1, 2.5]])
+    for (ename, kname), eu, dt, per_pixel in itertools.product((('incident_energy', 'energy_transfer_direct_from_tof'), ('final_energy', 'energy_transfer_indirect_from_tof')),
+                                                             ('meV', 'eV', 'ueV', 'J'), ('float64', 'float32'), (False, True)):
+        ident = f'convert:{ename}:{eu}:{dt}:{"per-pixel" if per_pixel else "scalar"}'
+        e_meV = np.array([25.0, 40.0]) if per_pixel else np.array(25.0)
+        energy = (sc.array(dims=['spectrum'], values=e_meV, unit='meV') if per_pixel else sc.scalar(float(e_meV), unit='meV')).to(unit=eu).to(dtype=dt)
+        tvals = np.array([[9000.0, 12000.0, 20000.0], [8000.0, 13000.0, 21000.0]])
+        da = sc.DataArray(sc.ones(dims=['spectrum', 'tof'], shape=[2, 3], unit='counts'),
+                          coords={'tof': sc.array(dims=['spectrum', 'tof'], values=tvals, unit='us').to(dtype=dt),
+                                  'position': sc.vectors(dims=['spectrum'], values=pos, unit='m'), 'source_position': sc.vector([0.0, 0.0, -12.0], unit='m'),
+                                  'sample_position': sc.vector([0.0, 0.0, 0.0], unit='m'), ename: energy})
+        before = da.copy(deep=True)
+        try:
+            with warnings.catch_warnings():
+                warnings.simplefilter('ignore')
+                out = conv.convert(da, origin='tof', target='energy_transfer', scatter=True)
+            L1 = bl.L1(incident_beam=bl.straight_incident_beam(source_position=da.coords['source_position'], sample_position=da.coords['sample_position']))
+            L2 = bl.L2(scattered_beam=bl.straight_scattered_beam(position=da.coords['position'], sample_position=da.coords['sample_position']))
+            want = getattr(tof, kname)(tof=da.coords['tof'], L1=L1, L2=L2, **{ename: energy})
+        except Exception as e:  # noqa: BLE001
+            fails.append({'id': ident, 'problem': f'raised {type(e).__name__}: {e}'[:300]})
+            continue
+        got = out.coords.get('energy_transfer')
+        if got is None:
+            fails.append({'id': ident, 'problem': 'no energy_transfer coordinate on the result'})
+        elif got.unit != energy.unit:
+            fails.append({'id': ident, 'problem': f'energy given in {energy.unit}, energy transfer returned in {got.unit}'})
+        elif got.dtype != want.dtype or got.values.shape != want.values.shape or not np.allclose(got.values, want.values, rtol=1e-5 if dt == 'float32' else 1e-12, atol=0, equal_nan=True):
+            fails.append({'id': ident, 'problem': f'energy transfer {got.dtype} {got.values.ravel()[:2]} differs from the kernel on the supplied operands ({want.dtype} {want.values.ravel()[:2]})'})
+        elif not sc.identical(before, da):
+            fails.append({'id': ident, 'problem': 'convert modified its input'})
+        elif ename in out.coords and not (out.coords[ename].unit == energy.unit and np.array_equal(out.coords[ename].values, energy.values)):
+            fails.append({'id': ident, 'problem': f'the {ename} coordinate on the result is not the one supplied'})
+    return fails
+
+
+def convert_probe(chk):
+    fails = convert_failures()
+    chk.bounded_check('convert-entry-point', 'real convert(tof -> energy_transfer) vs the kernels on the supplied operands: value, dtype, unit of the supplied energy, input untouched',
+                      '2 kernels x 4 energy units x float64/float32 x scalar/per-pixel energy', 32, fails[:6])
+
+
 def replay(rec):
     import itertools
+    if '/bounded/convert-entry-point/' in rec['obligation']:
+        f_ = rec.get('meta', {}).get('replay') or {}
+        hit = [x for x in convert_failures() if x['id'] == f_.get('id')]
+        return {'reproduced': bool(hit), 'cases': hit[:1]}
     import mpmath as mp
     if '/bounded/native-kernel-probe/' in rec['obligation']:
         f = rec.get('meta', {}).get('replay') or {}
